@@ -170,12 +170,18 @@ def run_gen(name, cmd, cwd=None):
 
 # ------------------------------------------------------------------------------------------------ Go drivers
 
-def overlay_json(scratch):
+def overlay_json(scratch, tags=None):
+    """map harness/overlay/** into the build. Only zzverif/vh and the files whose path mentions one of `tags`
+    (default: all files) are included, so that another property's driver under construction cannot break this build."""
     rep = {}
     for dp, dn, fn in os.walk(OVERLAY_SRC):
         for f in fn:
             src = os.path.join(dp, f)
             rel = os.path.relpath(src, OVERLAY_SRC)
+            if tags is not None and not rel.startswith("zzverif/vh/"):
+                parts = re.split(r"[^a-z0-9]+", rel.lower())
+                if not any(t in parts for t in tags):
+                    continue
             rep[os.path.join(REPO, rel)] = src
     p = os.path.join(scratch, "overlay.json")
     json.dump({"Replace": rep}, open(p, "w"))
@@ -184,7 +190,7 @@ def overlay_json(scratch):
 
 def go_build_driver(scratch, drv):
     """drv: {kind: 'test'|'main', pkg: './strutil'}; returns (binary path | None, log)"""
-    ov = overlay_json(scratch)
+    ov = overlay_json(scratch, drv.get("_tags"))
     out_bin = os.path.join(scratch, re.sub(r"[^A-Za-z0-9]", "_", drv["pkg"]) + (".test" if drv["kind"] == "test" else ".bin"))
     if drv["kind"] == "test":
         cmd = ["go", "test", "-c", "-vet=off", "-tags", "verif", "-overlay", ov, "-o", out_bin, drv["pkg"]]
